@@ -340,6 +340,141 @@ def check_decoder_tables(ctx, c):
         ctx.check(not bad, "R19.7", b.loc(), f"{b.id}|decoder-table", f"{who}: " + "; ".join(bad[:3]) + " — a present value that parses must be delivered (an empty text is still a value: `?limit=` must be rejected for an integer, not read as absent), and every failure must be an error",
                   instance=f"{who}: {rows} rows (selection x conversion x parser x emptiness) as specified")
     ctx.floor("R19.7", "single-valued / optional parameter decoders decided as tables", n, 3)
+    check_decoder_values(ctx, c)
+    check_auth_values(ctx, c)
+
+
+def check_decoder_values(ctx, c):
+    """R19.9: every parameter decoder (single, optional, sequence; DecodeParam and DecodeHeader; FromStr and FromPlain flavours)
+    evaluated on concrete lists of texts — none, one, several, with empty texts and unparsable ones — with the parser as the
+    only atom (`"bad"` fails, every other text, the empty one included, parses to itself).  A single decoder delivers the one
+    text given or fails, an optional one delivers None only for an empty list, a sequence decoder delivers every text in
+    order: nothing is filtered, trimmed or defaulted on the way."""
+    from .. import minterp
+    F = ctx.F
+    OPTP, RES = "core::option::Option", "core::result::Result"
+    lists = [[], [""], ["x"], ["bad"], ["x", "y"], ["", "x"], ["x", ""], ["", ""], ["x", "bad"], [" x "], ["x", "", "y"]]
+    n = 0
+    for b in c.bodies:
+        if not (b.name == "decode" and b.trait and b.trait.split("::")[-1] in ("DecodeParam", "DecodeHeader") and b.id.startswith("conjure_http::server::") and b.argc == 2):
+            continue
+        header = b.trait.endswith("DecodeHeader")
+        st = tystr(b.self_ty or {})
+        kind = "sequence" if "Seq" in st else "optional" if "Option" in st else "single"
+        if not any(x in st for x in ("FromStr", "FromPlain")):
+            continue
+        who = f"{b.trait.split('::')[-1]} for {(ty_adt(b.self_ty) or '?').split('::')[-1]}"
+        bad, rows, unsup = [], 0, None
+        for texts in lists:
+            def oracle(f, argv):
+                nm, d_ = f.get("name"), f.get("def", "")
+                if nm in ("from_plain", "parse", "from_str") and ("FromPlain" in d_ or "core::str" in d_ or "FromStr" in d_) and argv and isinstance(argv[-1], str):
+                    return minterp.adt(RES, 1, [("sym", "parse-error")]) if argv[-1] == "bad" else minterp.adt(RES, 0, [("val", argv[-1])])
+                if nm == "to_str" and "HeaderValue" in d_ and argv and isinstance(argv[0], tuple) and argv[0][0] == "hv":
+                    return minterp.adt(RES, 0, [argv[0][1]])
+                if nm in ("as_ref", "borrow", "deref") and argv and isinstance(argv[0], str):
+                    return argv[0]
+                if nm == "collect" and argv and minterp.is_it(argv[0]):
+                    items = list(argv[0][1].items)
+                    argv[0][1].items = []
+                    if all(minterp.is_adt(x_) and x_[1] == RES for x_ in items):
+                        for x_ in items:
+                            if x_[2] == 1:
+                                return x_
+                        return minterp.adt(RES, 0, [("coll", [x_[3][0] for x_ in items])])
+                    return ("coll", items)
+                return minterp.NO_VALUE
+            I = minterp.Interp(F, c, inline=lambda d_, rid: rid.startswith("conjure_http::server::") and c.body(rid) is not None, max_depth=4)
+            I.call_oracle = oracle
+            arg = ("array", [("hv", t_) for t_ in texts] if header else list(texts))
+            try:
+                r = I.run(b, [("sym", "runtime"), arg])
+            except minterp.Unsupported as e:
+                unsup = str(e)
+                break
+            if not (minterp.is_adt(r) and r[1] == RES):
+                unsup = f"result {r!r:.60}"
+                break
+            rows += 1
+            if kind == "single":
+                exp = ("ok", ("val", texts[0])) if len(texts) == 1 and texts[0] != "bad" else ("err", None)
+            elif kind == "optional":
+                exp = ("ok", None) if not texts else (("ok", ("some", ("val", texts[0]))) if len(texts) == 1 and texts[0] != "bad" else ("err", None))
+            else:
+                exp = ("err", None) if "bad" in texts else ("ok", ("coll", [("val", t_) for t_ in texts]))
+            if r[2] == 1:
+                got = ("err", None)
+            else:
+                v = r[3][0]
+                if kind == "optional" and minterp.is_adt(v) and v[1] == OPTP:
+                    v = None if v[2] == 0 else ("some", v[3][0])
+                got = ("ok", v)
+            if got != exp:
+                bad.append(f"values {texts!r}: returns {got!r:.70}, must return {exp!r:.70}")
+        if unsup is not None:
+            ctx.note(f"R19.9 {who}: decode left the interpretable fragment ({unsup}); decided by R19.2 / R19.7")
+            continue
+        n += 1
+        ctx.check(not bad, "R19.9", b.loc(), f"{b.id}|decoder-values", f"{who} ({kind}): " + "; ".join(bad[:3]) + " — every text the client sent (an empty one too) is a value: it is parsed and delivered, or the request is refused",
+                  instance=f"{who} ({kind}): {rows} concrete parameter lists as specified")
+    ctx.floor("R19.9", "parameter decoders decided on concrete lists", n, 4)
+
+
+def check_auth_values(ctx, c):
+    """R19.10: the two auth parsers evaluated on concrete header texts (header lookup, text conversion and the token parser are
+    the atoms; strings and iterators concrete): the token is accepted exactly when the header is the expected prefix
+    (`Bearer ` / `<cookie>=`) followed by a well-formed token and nothing else — the prefix is not searched for inside the
+    text, matched case-insensitively, or trimmed — and every other request is refused."""
+    from .. import minterp
+    import re as _re
+    OPTP, RES = "core::option::Option", "core::result::Result"
+    tok = _re.compile(r"[A-Za-z0-9\-._~+/]+=*")
+    n = 0
+    for b in c.bodies:
+        if not (b.id.startswith(SRV) and b.kind == "fn" and b.name in ("parse_header_auth", "parse_cookie_auth")):
+            continue
+        prefix = "Bearer " if b.name == "parse_header_auth" else "session="
+        texts = [None, prefix + "abc.DEF-123", prefix + "abc==", prefix, prefix + "a b", prefix + " abc", prefix + "abc ", "abc", "x" + prefix + "abc", "other=1; " + prefix + "abc", prefix + "abc; other=1",
+                 prefix.lower() + "abc", prefix.upper() + "abc", " " + prefix + "abc", "NotBearer abc", "Basic abc", prefix.strip() + "abc", prefix + prefix + "abc", ""]
+        bad, rows, unsup = [], 0, None
+        for h in texts:
+            def oracle(f, argv, h=h):
+                nm, d_ = f.get("name"), f.get("def", "")
+                if nm in ("get", "get_all") and "HeaderMap" in d_:
+                    if nm == "get":
+                        return minterp.adt(OPTP, 0, []) if h is None else minterp.adt(OPTP, 1, [("hv", h)])
+                    return ("iter", minterp._It([] if h is None else [("hv", h)]))
+                if nm == "to_str" and "HeaderValue" in d_ and argv and isinstance(argv[0], tuple) and argv[0][0] == "hv":
+                    return minterp.adt(RES, 0, [argv[0][1]])
+                if nm == "as_bytes" and "HeaderValue" in d_ and argv and isinstance(argv[0], tuple) and argv[0][0] == "hv":
+                    return ("mem", argv[0][1].encode(), None)
+                if nm in ("parse", "from_str", "new", "from_plain") and argv and isinstance(argv[-1], str) and ("core::str" in d_ or "BearerToken" in d_ or "FromStr" in d_ or "FromPlain" in d_):
+                    return minterp.adt(RES, 0, [("token", argv[-1])]) if tok.fullmatch(argv[-1]) else minterp.adt(RES, 1, [("sym", "bad-token")])
+                return minterp.NO_VALUE
+            I = minterp.Interp(ctx.F, c, inline=lambda d_, rid: rid.startswith(SRV), max_depth=4)
+            I.call_oracle = oracle
+            args = [("sym", "parts")] + ([prefix] if b.argc == 2 else [])
+            try:
+                r = I.run(b, args)
+            except minterp.Unsupported as e:
+                unsup = str(e)
+                break
+            if not (minterp.is_adt(r) and r[1] == RES):
+                unsup = f"result {r!r:.60}"
+                break
+            rows += 1
+            want = None
+            if h is not None and h.startswith(prefix) and tok.fullmatch(h[len(prefix):]):
+                want = h[len(prefix):]
+            got = r[3][0][1] if r[2] == 0 and isinstance(r[3][0], tuple) and r[3][0] and r[3][0][0] == "token" else (None if r[2] == 1 else "?")
+            if got != want:
+                bad.append(f"header {h!r}: {'token ' + repr(got) if got else 'refused'}, must be {'token ' + repr(want) if want else 'refused'}")
+        if unsup is not None:
+            ctx.note(f"R19.10 {b.name}: not evaluable on concrete header texts ({unsup}); decided by R19.2 / R19.6")
+            continue
+        n += 1
+        ctx.check(not bad, "R19.10", b.loc(), f"{b.name}|auth-values", f"{b.name}: " + "; ".join(bad[:4]), instance=f"{b.name}: {rows} header texts: accepted exactly for `{prefix}<token>`")
+    return n
 
 
 def run(ctx):
@@ -383,7 +518,7 @@ def run(ctx):
     check_decoder_tables(ctx, c)
     # R19.8 a well-formed request must not be turned into a decoding failure by the extraction step itself (shared with C07)
     from . import c07
-    ctx.include(c07, {"R7.5"}, "R19.8", "a path argument that the client encoded correctly (an escaped '/' inside one segment) must decode, not be reported as repeated / malformed")
+    ctx.include(c07, {"R7.5", "R7.9"}, "R19.8", "a path argument that the client encoded correctly (an escaped '/' inside one segment) must decode, not be reported as repeated / malformed")
     # helpers themselves construct no other errors
     for name, (ob, rb) in hb.items():
         ctors = [t["call"]["def"] for x in [rb] + c.closures_of(rb) for _, t in x.calls() if t["call"]["def"].startswith("conjure_error::error::Error::") and t["call"]["name"] not in ("with_safe_param",)]
